@@ -543,13 +543,31 @@ func (w *World) OtherPush(b string, oids []string) error {
 }
 
 // Stage applies Stage(p, o): content written and added, not committed.
-func (w *World) Stage(p, o string) error {
-	file := filepath.Join(w.Clone, PathFile(p))
+func (w *World) Stage(p, o string) error { return w.StageIn("main", p, o, "") }
+
+// StageIn stages content o at p in the main or the linked worktree; after: "" leaves the staged bytes in
+// the working file, "edited" / "deleted" change the working file again so that only the index still
+// refers to the staged version.
+func (w *World) StageIn(where, p, o, after string) error {
+	dir := w.Clone
+	if where == "linked" {
+		dir = w.Linked
+	}
+	file := filepath.Join(dir, PathFile(p))
 	if err := w.Env.WriteFile(file, w.Content(o), 0o644); err != nil {
 		return err
 	}
-	_, err := w.git("add", "--", PathFile(p))
-	return err
+	w.logf("(in %s) git add -- %s ; working file afterwards: %s", filepath.Base(dir), PathFile(p), after)
+	if r := w.Env.RunIn(dir, nil, nil, 60*time.Second, "git", "add", "--", PathFile(p)); !r.OK() {
+		return fmt.Errorf("stage: %s", r.All())
+	}
+	switch after {
+	case "edited":
+		return w.Env.WriteFile(file, []byte("edited again after git add\n"), 0o644)
+	case "deleted":
+		return os.Remove(file)
+	}
+	return nil
 }
 
 // Stash applies Stash(p, o): edit p to content o, then git stash (work tree back to pointers).
